@@ -794,13 +794,33 @@ pub fn gen_c20(rng: &mut Rng) -> Value {
             12 => json!({"k":"api","op":*rng.pick(&["remove","remove_opts"]),"key":ki,"fully":rng.chance(1,2)}),
             13 => json!({"k":"api","op":*rng.pick(&["remove_hash","exists","read"]),"addr":{"val":vi,"algo":*rng.pick(&ALGOS)}}),
             14 => json!({"k":"api","op":"clear"}),
-            _ => json!({"k":"api","op":"index_insert","key":ki,"opts":{"sri":{"val":vi,"algo":*rng.pick(&["sha1","sha256"])},"size":*rng.pick(&[len, 0, u32::MAX as u64, i64::MAX as u64, u64::MAX])}}),
+            _ => {
+                // a raw index record with an absurd recorded size, usually pointing at content that exists
+                let (v2, a2) = if rng.chance(2, 3) { (1u64, "sha256") } else { (vi as u64, *rng.pick(&["sha1", "sha256"])) };
+                json!({"k":"api","op":"index_insert","key":ki,"opts":{"sri":{"val":v2,"algo":a2},"size":*rng.pick(&[len, 0, u32::MAX as u64, i64::MAX as u64, u64::MAX])},"hostile":true})
+            }
         };
         set_flav(&mut st, flav(rng));
         if st["op"] == "list" || st["op"] == "ls" {
             st["mode"] = json!("sync");
         }
+        let follow = st["op"] == "index_insert" && rng.chance(2, 3);
         steps.push(st);
+        if follow {
+            // the odd record is looked at right away through some reading entry point
+            let mut rd = match rng.below(5) {
+                0 => json!({"k":"api","op":"read","key":ki}),
+                1 => json!({"k":"api","op":"reader","key":ki,"bufs":[4096]}),
+                2 => json!({"k":"api","op":"metadata","key":ki}),
+                3 => json!({"k":"api","op":"copy","key":ki,"to":"$O/odd"}),
+                _ => json!({"k":"api","op":"list"}),
+            };
+            set_flav(&mut rd, flav(rng));
+            if rd["op"] == "list" {
+                rd["mode"] = json!("sync");
+            }
+            steps.push(rd);
+        }
     }
     let mut sc = scenario("C20", keys, vals, steps, rng);
     sc["lenient_model"] = json!(true);
